@@ -5,6 +5,9 @@
          called with the converted values in declaration order; the arguments are removed exactly once.
   C18.W  call_native wraps an error of the host function in TaskFailure carrying the procedure's name and pushes the
          result on the Ok path.
+  C18.W  (who-may-call) the host callable of a Procedure (`VmFunction::call`) is invoked only from call_native - every other
+         way into a native (CallNative, calling a native function value, run_function given a native) goes through it,
+         so every failure carries the function's name.
   C18.N  reserved names: every public way to register a native rejects names starting with `__`.
   C18.B  re-entry is frame-balanced: run_function pushes two frames, pops one itself (the callee's Return pops the
          other), and the trap frame returns to the final Exit instruction.
@@ -189,6 +192,21 @@ def rule_w(F):
         res.append(ok("C18.W", "C18/W/call_native/error-wrapped-with-name", f.loc(), "a host error becomes TaskFailure{name: procedure.name(), ..}"))
     else:
         res.append(bad("C18.W", "C18/W/call_native/error-wrapped-with-name", f.loc(), "call_native does not wrap the host function's error in TaskFailure carrying the procedure's name"))
+    # who may call: no invocation of a registered host callable outside call_native
+    for g in F.fns:
+        if not g.mir or g is f:
+            continue
+        for bi, t in mu.calls(g):
+            if any(n.endswith("VmFunction::call") for n in callee_names(t["func"])):
+                owner = g.root or g.short
+                if owner == f.short:
+                    continue
+                res.append(bad("C18.W", "C18/W/%s/calls-host-function-directly" % owner.rsplit("::", 1)[-1], g.loc(t.get("ln")),
+                               "%s invokes a registered host function directly instead of through call_native: an error it returns is "
+                               "not wrapped in TaskFailure{name, ..} and surfaces without the function's name" % owner))
+    res.append(ok("C18.W", "C18/W/host-callable-invoked-only-by-call_native", f.loc(), "VmFunction::call is invoked from call_native only")
+               if not any(r["status"] == "violation" and r["key"].endswith("calls-host-function-directly") for r in res) else
+               note("C18.W", "C18/W/host-callable-invoked-only-by-call_native", f.loc(), "see violations"))
     # result pushed on the Ok path: every non-error path from the call to return passes stack_push
     pushes = set(bi for bi, t in mu.calls(f) if any(n.endswith("Vm::stack_push") or n.endswith("ValueStack::push") for n in callee_names(t["func"])))
     err = mu.error_exit_blocks(f)
@@ -311,7 +329,7 @@ def rule_b(F):
 
 RULES = [
     Rule("C18.O", rule_o, 14, "positional wiring of the native wrappers"),
-    Rule("C18.W", rule_w, 2, "host errors are wrapped with the procedure name; result pushed"),
+    Rule("C18.W", rule_w, 3, "host errors are wrapped with the procedure name; result pushed"),
     Rule("C18.N", rule_n, 1, "reserved names cannot be registered"),
     Rule("C18.B", rule_b, 3, "re-entry is frame balanced"),
 ]
